@@ -253,7 +253,27 @@ SAMPLE_NAMES = [
     ("/w/proj", "/w/proj/a/proj/b.py", "proj.a.proj.b"),
     ("/w/proj", "/w/proj/pkg/pkg/pkg.py", "proj.pkg.pkg.pkg"),
     ("/w/proj/proj", "/w/proj/proj/x/y.py", "proj.x.y"),
+    # the suffix text inside the name: a component that starts with "py" after a separator (`.replace(".py", "")` on the dotted
+    # name eats the boundary), letters of the suffix at the end of a stem (`rstrip(".py")`), a stem that is the suffix's letters
+    ("/w/proj", "/w/proj/lib/pytools/helper.py", "proj.lib.pytools.helper"),
+    ("/w/proj", "/w/proj/lib/pytools", "proj.lib.pytools"),
+    ("/w/proj", "/w/proj/copy/happy.py", "proj.copy.happy"),
+    ("/w/proj", "/w/proj/pyproj/py.py", "proj.pyproj.py"),
+    ("/w/proj", "/w/proj/gen.pyi/mod.py", "proj.gen.pyi.mod"),
 ]
+
+
+def name_agrees_on_all_samples(name: Term, path: Term, root_param: str, sx: SymX) -> int:
+    """Number of samples if the registered name could be evaluated on *every* sample and is the specified one each time, else 0."""
+    for root, p, want in SAMPLE_NAMES:
+        env = {root_param: PurePosixPath(root), "<terms>": {ident(path): PurePosixPath(p)}}
+        try:
+            got = concrete(name, env, sx)
+        except (Unknown, ValueError, IndexError, KeyError, RecursionError):
+            return 0
+        if not isinstance(got, str) or got != want:
+            return 0
+    return len(SAMPLE_NAMES)
 
 
 def name_counterexample(name: Term, path: Term, root_param: str, sx: SymX):
